@@ -59,6 +59,7 @@ type c19Case struct {
 	DstCols  []int       `json:"dst_cols"`  // mapped destination columns (indexes into the schema), injective
 	SrcCols  []int       `json:"src_cols"`  // CSV source index per mapped column (repeats allowed)
 	Sep      string      `json:"sep"`
+	PadLists bool        `json:"pad_lists,omitempty"` // the -dest-cols / -src-cols lists are written with a blank after each comma
 	Existing int         `json:"existing"` // rows present before the import
 	Records  []c19Record `json:"records"`
 }
@@ -146,7 +147,8 @@ func c19BadField(t *rapid.T, dt storage.DataType) (string, bool) {
 }
 
 func c19Gen(t *rapid.T) c19Case {
-	c := c19Case{Sep: rapid.SampledFrom([]string{",", ",", ";", "\t", "|"}).Draw(t, "sep")}
+	c := c19Case{Sep: rapid.SampledFrom([]string{",", ",", ";", "\t", "|", "§", "¦", "·", "→"}).Draw(t, "sep")}
+	c.PadLists = rapid.IntRange(0, 9).Draw(t, "padlists") == 4
 	ncols := rapid.IntRange(1, 6).Draw(t, "ncols")
 	for i := 0; i < ncols; i++ {
 		c.ColTypes = append(c.ColTypes, rapid.IntRange(0, 3).Draw(t, "ctype"))
@@ -321,13 +323,25 @@ func c19Run(c c19Case, st *vlib.Stats) string {
 	for _, sc := range c.SrcCols {
 		srcStrs = append(srcStrs, fmt.Sprint(sc))
 	}
-	*cfgDb, *cfgDestCols, *cfgSrcCols, *cfgSep, *cfgTable = db, strings.Join(dst, ","), strings.Join(srcStrs, ","), c.Sep, table
+	listSep := ","
+	if c.PadLists {
+		listSep = ", "
+	}
+	*cfgDb, *cfgDestCols, *cfgSrcCols, *cfgSep, *cfgTable = db, strings.Join(dst, listSep), strings.Join(srcStrs, listSep), c.Sep, table
 	cfg, err := makeConfig(rs)
+	if err != nil && c.PadLists {
+		// a list written "a, b": refusing it is the program's choice; what it may not do is
+		// accept it and then import something else than the records
+		st.Label("padded-flag-list-refused", 1)
+		b, _ := json.Marshal(c)
+		st.Record(b, false, "padded-flag-lists")
+		return ""
+	}
 	if err != nil {
 		return "makeConfig failed: " + err.Error()
 	}
 	wantCfg := importCfg{colTypes: types, db: db, dstCols: dst, separator: []rune(c.Sep)[0], srcCols: c.SrcCols, table: table}
-	if !reflect.DeepEqual(cfg, wantCfg) {
+	if !c.PadLists && !reflect.DeepEqual(cfg, wantCfg) {
 		return fmt.Sprintf("makeConfig built %+v from the flags, expected %+v", cfg, wantCfg)
 	}
 	text := c19Render(c)
